@@ -360,6 +360,37 @@ fn one_scenario(cfg: &CheckCfg, index: usize, known: &KnownFile) -> JobOut {
             }
             account(&mut agg, cfg, &history, &layouts, &plan, &r, index, tainted);
         }
+        // ---- disk quota: the file system accepts only so many bytes in a run ----
+        let file_bytes: u64 = base
+            .sites
+            .iter()
+            .filter(|(_, s)| s.class == OpClass::Write && s.seam == SeamKind::File)
+            .count() as u64;
+        if file_bytes > 0 {
+            for _ in 0..(if cfg.tier == "thorough" { 4 } else { 1 }) {
+                let pi = base
+                    .sites
+                    .iter()
+                    .find(|(_, s)| s.class == OpClass::Write && s.seam == SeamKind::File)
+                    .map(|(p, _)| *p)
+                    .unwrap_or(0);
+                let q = rng_fault.below(40) as u32;
+                let plan = vec![PlanItem {
+                    prog: pi,
+                    fault: FaultSer {
+                        stmt: None,
+                        occ: 0,
+                        ordinal: 0,
+                        class: "write".into(),
+                        seam: "file".into(),
+                        kind: "quota".into(),
+                        arg: q,
+                    },
+                }];
+                let r = run_case(&prep, &history, &plan, false, true);
+                account(&mut agg, cfg, &history, &layouts, &plan, &r, index, tainted);
+            }
+        }
         // ---- multi-fault plans (incl. transient faults on consecutive occurrences) ----
         if !candidates.is_empty() {
             for _ in 0..cfg.multi_fault_plans {
@@ -939,8 +970,13 @@ fn raw_part(
     } else {
         ((if quick { 2_000 } else { 40_000 }) as f64 * scale_env()) as usize
     };
+    let n_wrep = if cfg.id == "C08" {
+        ((if quick { 6_000 } else { 200_000 }) as f64 * scale_env()) as usize
+    } else {
+        ((if quick { 1_500 } else { 30_000 }) as f64 * scale_env()) as usize
+    };
     let n_corpus = corpus.programs.len();
-    let total_jobs = n_corpus + n_wio;
+    let total_jobs = n_corpus + n_wio + n_wrep;
     let next = Arc::new(AtomicUsize::new(0));
     let results: Arc<Mutex<Vec<(usize, RawAgg)>>> = Arc::new(Mutex::new(vec![]));
     let corpus = Arc::new(corpus);
@@ -966,8 +1002,11 @@ fn raw_part(
                         let mut a = RawAgg::default();
                         if i < n_corpus {
                             corpus_job(&corpus.programs[i], &mut rng, &mut a, quick);
-                        } else {
+                        } else if i < n_corpus + n_wio {
                             let case = gen_wio(&mut rng);
+                            wio_job(case, &mut a);
+                        } else {
+                            let case = gen_wrep(&mut rng);
                             wio_job(case, &mut a);
                         }
                         local.push((i, a));
@@ -1026,6 +1065,7 @@ fn raw_part(
     agg.probes
         .insert("raw_corpus_skipped_inkey".into(), corpus.skipped_inkey as u64);
     agg.probes.insert("raw_wio_programs".into(), n_wio as u64);
+    agg.probes.insert("raw_wrep_programs".into(), n_wrep as u64);
     agg.probes
         .insert("raw_programs_accepted".into(), accepted as u64);
     agg.probes
